@@ -2,6 +2,7 @@
 # seedregress.sh : regression over every stored seed, in an ISOLATED copy of /verif and /repo
 # (so that work can go on in the real ones): apply each seed to the copy of the repository, run the
 # check(s) named in its meta.json in the copy of the framework, undo.  Output: one line per seed.
+# SEED_FILTER=<regexp> restricts the run to the seeds whose directory name matches.
 set -u
 V=/root/scratch/vcopy; R=/root/scratch/repocopy
 rm -rf $V $R; mkdir -p $V
@@ -12,6 +13,7 @@ export VERIF_REPO=$R
 cd $V
 for S in seeded/*/; do
   name=$(basename $S)
+  if [ -n "${SEED_FILTER:-}" ] && ! echo "$name" | grep -qE "$SEED_FILTER"; then continue; fi
   ids=$(python3 -c "import json,os;f='$V/$S/meta.json';print(' '.join(json.load(open(f)).get('check_with',['$name'[:3]]) if os.path.exists(f) else ['$name'[:3]]))")
   old=$(python3 -c "import json,os;f='$V/$S/meta.json';m=json.load(open(f)) if os.path.exists(f) else {};print(m.get('applies_to_commit') or '')")
   if [ -n "$old" ]; then echo "$name APPLIES-ONLY-TO $old (not re-created against the current tree, see meta.json)"; continue; fi
